@@ -11,6 +11,8 @@
    What is NOT proved (it is a fact about the interpreter run, decided by differential execution in
    harness/c13.py): that the Python code draws exactly at the listed sites, bit-level float effects of container
    order, CPython's salted str hash, the C generators inside numpy/torch.
+   A site is private only if it also is per-call: a generator constructed in __init__ (or a cached property) and consumed
+   by plan_on/train_on is kind KPersistentAcrossCalls (source GCarry), which `nonprivate_breaks` shows breaks isolation.
    Components whose lemma is false on the current tree have NO lemma here (none is stated falsely): the harness
    evaluates `component_report` for all twelve components and reports them. *)
 From Coq Require Import String List Bool ZArith.
@@ -81,13 +83,33 @@ Theorem sites_private_mdp_rollout : forallb site_private (component_sites "mdp_r
 Proof. vm_compute. reflexivity. Qed.
 Print Assumptions sites_private_mdp_rollout.
 
+Theorem sites_private_laostar : forallb site_private (component_sites "laostar") = true.
+Proof. vm_compute. reflexivity. Qed.
+Print Assumptions sites_private_laostar.
+
+Theorem sites_private_bpi : forallb site_private (component_sites "bpi") = true.
+Proof. vm_compute. reflexivity. Qed.
+Print Assumptions sites_private_bpi.
+
+Theorem sites_private_ga : forallb site_private (component_sites "ga") = true.
+Proof. vm_compute. reflexivity. Qed.
+Print Assumptions sites_private_ga.
+
+Theorem sites_private_pomdp_rollout : forallb site_private (component_sites "pomdp_rollout") = true.
+Proof. vm_compute. reflexivity. Qed.
+Print Assumptions sites_private_pomdp_rollout.
+
+(* semimdp has NO lemma: obj_seed derives the simulation seed from the salted hash (known finding).  Add
+   sites_private_semimdp here (and to clean_today) once it holds on the regenerated table. *)
+
 (* every one of the twelve components is seen by the extractor (the lemmas above are not vacuous) *)
 Theorem sites_cover_components :
   forallb (fun c => negb (Nat.eqb (length (component_sites c)) 0)) components = true.
 Proof. vm_compute. reflexivity. Qed.
 Print Assumptions sites_cover_components.
 
-Definition clean_today : list string := ["lrtdp"; "astar"; "bfs"; "td"; "rmax"; "implicit"; "mdp_rollout"].
+Definition clean_today : list string :=
+  ["lrtdp"; "astar"; "bfs"; "td"; "rmax"; "implicit"; "mdp_rollout"; "laostar"; "bpi"; "ga"; "pomdp_rollout"].
 
 Theorem isolated_today :
   forall cname, In cname clean_today ->
@@ -100,10 +122,11 @@ Proof.
   intros cname Hin c Hc A p Hu w1 w2 Hs.
   assert (Ht : forallb site_private (component_sites cname) = true).
   { simpl in Hin.
-    destruct Hin as [<-|[<-|[<-|[<-|[<-|[<-|[<-|[]]]]]]]].
+    destruct Hin as [<-|[<-|[<-|[<-|[<-|[<-|[<-|[<-|[<-|[<-|[<-|[]]]]]]]]]]]].
     - exact sites_private_lrtdp. - exact sites_private_astar. - exact sites_private_bfs.
     - exact sites_private_td. - exact sites_private_rmax. - exact sites_private_implicit.
-    - exact sites_private_mdp_rollout. }
+    - exact sites_private_mdp_rollout. - exact sites_private_laostar. - exact sites_private_bpi.
+    - exact sites_private_ga. - exact sites_private_pomdp_rollout. }
   destruct (isolation_thm _ Ht c Hc A p Hu w1 w2 Hs) as (H1 & _ & H3 & _); split; assumption.
 Qed.
 Print Assumptions isolated_today.
